@@ -15,7 +15,9 @@ META = {
     'decided': 'print/parse shape agreement for LocalDate(date part), LocalTime, LocalDateTime, TimeOffset, OffsetDateTime, '
                'ZonedDateTime (brackets); ISO separators - - T : : and sign : ; every dereferenced offset is below the guarded '
                'length and the length constants compose (19 = 10+1+8, 25 = 19+6); the printed sign is chosen by the sign of the '
-               'minutes and both components are negated, the parser applies the sign to both; error values print their placeholder',
+               'minutes and both components are negated, the parser applies the sign to both; error values print their placeholder; '
+               'no parser detours through the 32-bit epoch-seconds count (call-graph reachability) and no chainable parser rejects on '
+               'the value of a parsed numeric field, so every value a printer emits is read back',
     'not_decided': 'value round trip over all dates/offsets (digit arithmetic); formatting of values outside +-99:59',
     'assumptions': ['clang 14 parser', 'ace_common::printPad2To prints exactly two characters for values 0..99'],
 }
